@@ -1468,7 +1468,10 @@ def check_reassembly_refuses(args):
         p.id, p.fragment_offset, p.payload = ident, 8 * i, bytes(8)
         pk.append(p)
     if foreign is not None:
-        pk.insert(foreign, se.UDP())
+        kind = args.get("foreign_kind", "udp")
+        pk.insert(foreign, {"udp": se.UDP(), "eth": se.Ethernet(), "bytes": b"\x45" * 20, "none": None, "int": 5}[kind])
+    if args.get("only_foreign"):
+        pk = [pk[foreign]]
     try:
         se.combine_ip_fragments(pk)
     except Exception:
@@ -1521,6 +1524,9 @@ def oracles_C16(ctx, hints):
         else:
             foreign = rng.randrange(0, cnt + 1)
         args = {"ids": ids, "foreign": foreign}
+        if foreign is not None:
+            args["foreign_kind"] = rng.choice(["udp", "eth", "bytes", "none", "int"])
+            args["only_foreign"] = rng.random() < 0.3        # a one-element list holding a non-IP object
         n += 1
         w = check_reassembly_refuses(args)
         if w:
